@@ -36,6 +36,27 @@ Theorem C16_context_conserved_by_every_operation :
   (holder_ctx (o_holder ob) = [] /\ o_cdrops ob = holder_ctx h).
 Proof. exact context_conserved. Qed.
 
+(* Over a whole history: the context a holder carries is, at the end, either still carried or has been
+   dropped -- exactly once, never twice, never silently lost (constructors aside, which bring a new
+   context in) *)
+Fixpoint final_holder (g : gir) (h : holder) (ops : list op) : holder :=
+  match ops with [] => h | o :: r => final_holder g (o_holder (step g h o)) r end.
+
+Theorem C16_context_dropped_exactly_once_over_a_history :
+  forall (m : machine) (feat : bool) (ops : list op) (h : holder),
+  forallb (fun o => negb (is_ctor o)) ops = true ->
+  concat (map o_cdrops (run_script (codegen m feat) h ops)) ++ holder_ctx (final_holder (codegen m feat) h ops)
+  = holder_ctx h.
+Proof.
+  intros m feat ops. induction ops as [|o r IH]; intros h Hc.
+  - reflexivity.
+  - cbn [forallb] in Hc. apply andb_prop in Hc as [Ho Hr]. apply negb_true_iff in Ho.
+    cbn [run_script map concat final_holder].
+    destruct (context_conserved m feat h o Ho) as [[Hk Hd]|[Hk Hd]]; rewrite Hd.
+    + cbn [app]. rewrite (IH _ Hr). exact Hk.
+    + rewrite <- app_assoc, (IH _ Hr), Hk. apply app_nil_r.
+Qed.
+
 Example C16_example :
   map (obs_str ex_gir) (run_script ex_gir HNone
      [ODynNew 7; OHandle "go" (Some 1) [Build_ans (AAbort AKInvalid) 0] None; OHandle "go" (Some 2) [] None; OInto "D2"; ODrop])
@@ -47,3 +68,4 @@ Proof. vm_compute. reflexivity. Qed.
 Print Assumptions C16_hooks_see_the_machines_context_and_the_callers_payload.
 Print Assumptions C16_transition_carries_the_context.
 Print Assumptions C16_context_conserved_by_every_operation.
+Print Assumptions C16_context_dropped_exactly_once_over_a_history.
